@@ -12,12 +12,55 @@
     assumption at all), the samplers are functions with the range hypothesis stated in
     Proofs/C11_Acq.v.  No proofs in this file.                                                       *)
 From Coq Require Import List ZArith QArith Qminmax Qabs Bool PrimFloat.
+From Coq Require String.
+Notation string := String.string.
 From Elfi Require Import Num.Mcmc.
 Import ListNotations.
 Local Open Scope Q_scope.
 
 Definition row := list Q.
 Definition box := list (Q * Q).          (* model.bounds: (lower, upper) per parameter *)
+
+(** ---- GPyRegression.__init__: from the user's bounds dict to model.bounds ----
+
+      elif len(bounds) != input_dim: raise ValueError
+      elif isinstance(bounds, dict):
+          if len(bounds) == 1: bounds = [bounds[n] for n in bounds.keys()]      (parameter_names may be None)
+          else:                bounds = [bounds[n] for n in parameter_names]
+
+    The dict is an association list in INSERTION order (what the user wrote); every consumer of
+    model.bounds (minimize, _add_noise, UniformAcquisition, RandMaxVar's bounds test, arr2d_to_batch in
+    prepare_new_batch) pairs bounds[i] with parameter_names[i].                                         *)
+Definition bdict := list (string * (Q * Q)).
+
+Fixpoint lookup (d : bdict) (n : string) : option (Q * Q) :=
+  match d with
+  | [] => None
+  | (k, iv) :: d' => if String.eqb k n then Some iv else lookup d' n
+  end.
+
+Fixpoint lookup_all (d : bdict) (names : list string) : option box :=
+  match names with
+  | [] => Some []
+  | n :: r => match lookup d n, lookup_all d r with
+              | Some iv, Some b => Some (iv :: b)
+              | _, _ => None                     (* KeyError *)
+              end
+  end.
+
+Definition box_of (names : list string) (d : bdict) : option box :=
+  if negb (Nat.eqb (length d) (length names)) then None          (* ValueError *)
+  else if Nat.eqb (length d) 1 then Some (map snd d)
+  else lookup_all d names.
+
+Definition iv_eqb (x y : Q * Q) : bool := Qeq_bool (fst x) (fst y) && Qeq_bool (snd x) (snd y).
+
+Fixpoint box_eqb (x y : box) : bool :=
+  match x, y with
+  | [], [] => true
+  | a :: x', b :: y' => iv_eqb a b && box_eqb x' y'
+  | _, _ => false
+  end.
 
 (** np.clip(x, lo, hi) = minimum(maximum(x, lo), hi) *)
 Definition clip (lo hi x : Q) : Q := Qmin (Qmax x lo) hi.
@@ -163,7 +206,9 @@ Inductive acq_kind :=
 
 Record case := {
   a_kind : acq_kind;
-  a_bounds : box;
+  a_names : list string;               (* model.parameter_names *)
+  a_dict : bdict;                      (* the user's bounds dict, in the key order the user wrote *)
+  a_mbounds : box;                     (* model.bounds as the surrogate holds it *)
   a_n : nat;
   a_locs : list row;                   (* what scipy.optimize.minimize returned, per start point *)
   a_vals : list Q;
@@ -173,6 +218,10 @@ Record case := {
   a_uni : list row;                    (* uniform.rvs result, row-major *)
   a_out : list row                     (* what acquire returned *)
 }.
+
+(** the user's box: coordinate i carries the interval the dict binds to parameter_names[i] *)
+Definition a_bounds (c : case) : box :=
+  match box_of (a_names c) (a_dict c) with Some b => b | None => [] end.
 
 Fixpoint assoc_q (t : list (Q * Q)) (x : Q) : Q :=
   match t with [] => 0 | (k, v) :: r => if Qeq_bool k x then v else assoc_q r x end.
@@ -219,9 +268,10 @@ Definition model_out (c : case) : option (list row) :=
 
 Definition agree (c : case) : bool :=
   match model_out c with
-  | None => true
+  | None => box_eqb (a_bounds c) (a_mbounds c)
   | Some o =>
       rows_eqb o (a_out c)
+      && box_eqb (a_bounds c) (a_mbounds c)        (* model.bounds is the box built from (parameter_names, dict) *)
       && match a_kind c with
          | KBase nz => match noise_vec (length (a_bounds c)) nz with
                        | Some vars => ab_ok c vars (minimize_post (a_bounds c) (a_locs c) (a_vals c))
@@ -231,6 +281,8 @@ Definition agree (c : case) : bool :=
          end
   end.
 
-(** the property on the implementation's output: exactly n points, each inside the box *)
+(** the property on the implementation's output: exactly n points, each inside the USER's box
+    (coordinate i in the interval the user's dict gives for parameter i, whatever the key order) *)
 Definition ok (c : case) : bool :=
-  Nat.eqb (length (a_out c)) (a_n c) && forallb (in_box (a_bounds c)) (a_out c).
+  match box_of (a_names c) (a_dict c) with Some _ => true | None => false end
+  && Nat.eqb (length (a_out c)) (a_n c) && forallb (in_box (a_bounds c)) (a_out c).
